@@ -265,6 +265,11 @@ def run(cx):
     # parser panic takes every established connection of the endpoint down with it
     from props.C03 import check_parser
     check_parser(cx, "C07.u")
+    # an un-nonced DISCONNECT must not end (or "complete") a pending handshake: the event typestate of both endpoints;
+    # and an address whose connection timed out can complete a new handshake (Fin goes with removal from the map)
+    from props.shared import share_instance
+    share_instance(cx, "C08", "C08.a", "C07.v")
+    share_instance(cx, "C17", "C17.c", "C07.w")
     from props.C17 import is_active_exact
     is_active_exact(cx, "C07.r")
 
